@@ -269,6 +269,12 @@ class TypedNode(Node):
             if before is True or (isinstance(before, int) and before is not False):
                 # All nodes are inserted at the same index: reverse to keep order
                 topnodes.reverse()
+            # Check all top nodes first: we must not fail after some were added
+            for n in topnodes:
+                if any(c._data_id == n._data_id for c in self.children):
+                    raise UniqueConstraintError(
+                        f"Node.data already exists in parent: {n}"
+                    )
             for n in topnodes:
                 self.add_child(n, before=before, deep=deep)
             return
